@@ -172,9 +172,10 @@ Inductive aggfn := ACount | ASum | AAvg | AMin | AMax | AArr.
 Definition aggcall := (aggfn * bool * expr)%type.          (* function, DISTINCT, argument; count( * ) = count(TRUE) *)
 
 Inductive item :=
-| IExpr (e : expr) (alias : name)
-| IAgg (f : aggfn) (dist : bool) (arg : expr) (alias : name)
-| IStar.
+| IExpr (e : expr) (alias : option name)
+| IAgg (f : aggfn) (dist : bool) (arg : expr) (alias : option name)
+| IStar
+| IQStar (q : name).                                        (* t.* *)
 
 Inductive query :=
 | Q (dist : bool) (items : list item) (from : source) (wh : option expr) (gb : list expr)
@@ -209,7 +210,7 @@ Definition aggs_of (items : list item) : list aggcall :=
 Fixpoint group_cols (items : list item) (keys : list expr) (nagg : nat) : outcome (list nat) :=
   match items with
   | [] => Ok []
-  | IStar :: _ => Err e_star_group
+  | IStar :: _ | IQStar _ :: _ => Err e_star_group
   | IExpr e _ :: rest =>
       match find_key e keys 0 with
       | None => Err e_notkey
@@ -222,13 +223,145 @@ Fixpoint group_cols (items : list item) (keys : list expr) (nagg : nat) : outcom
       end
   end.
 
-Definition item_fields (src : schema) (i : item) : schema :=
-  match i with
-  | IExpr _ a => [(None, a)]
-  | IAgg _ _ _ a => [(None, a)]
-  | IStar => src
+(* ---- column names ----
+   Names are fields (optional qualifier, name); "t.a" and "a" are different names.  Decimal suffixes: *)
+Fixpoint uint_bytes (u : Decimal.uint) : list Z :=
+  match u with
+  | Decimal.Nil => []
+  | Decimal.D0 u => 48 :: uint_bytes u | Decimal.D1 u => 49 :: uint_bytes u | Decimal.D2 u => 50 :: uint_bytes u
+  | Decimal.D3 u => 51 :: uint_bytes u | Decimal.D4 u => 52 :: uint_bytes u | Decimal.D5 u => 53 :: uint_bytes u
+  | Decimal.D6 u => 54 :: uint_bytes u | Decimal.D7 u => 55 :: uint_bytes u | Decimal.D8 u => 56 :: uint_bytes u
+  | Decimal.D9 u => 57 :: uint_bytes u
   end.
-Definition out_schema (src : schema) (items : list item) : schema := flat_map (item_fields src) items.
+Definition dec (n : nat) : list Z := uint_bytes (Nat.to_uint n).
+Definition suffixed (f : field) (k : nat) : field := (fst f, snd f ++ [95] ++ dec k).      (* name_k *)
+
+Definition field_eqb (a b : field) : bool := oname_eqb (fst a) (fst b) && name_eqb (snd a) (snd b).
+
+Definition counter := list (field * nat).
+Fixpoint cnt_get (c : counter) (f : field) : option nat :=
+  match c with [] => None | (k, n) :: t => if field_eqb k f then Some n else cnt_get t f end.
+Fixpoint cnt_set (c : counter) (f : field) (n : nat) : counter :=
+  match c with
+  | [] => [(f, n)]
+  | (k, m) :: t => if field_eqb k f then (k, n) :: t else (k, m) :: cnt_set t f n
+  end.
+
+Definition e_fuel : Z := 8.
+(* getUniqueName (ParseSelect, grouping branch) and the existingFields loop of logical.Map.Typecheck, after the
+   fixes for a third column of one name: the requested name's counter advances and the suffixed candidate is
+   checked again.  At most |counter|+1 rounds are needed. *)
+Fixpoint uniq_fuel (fuel : nat) (c : counter) (f : field) : outcome (field * counter) :=
+  match fuel with
+  | O => Err e_fuel
+  | S fuel' =>
+      match cnt_get c f with
+      | None => Ok (f, cnt_set c f 1)
+      | Some n => uniq_fuel fuel' (cnt_set c f (S n)) (suffixed f n)
+      end
+  end.
+(* the code before those fixes: one round, and the counter that is advanced is the suffixed name's *)
+Definition uniq_pinned (c : counter) (f : field) : outcome (field * counter) :=
+  match cnt_get c f with
+  | None => Ok (f, cnt_set c f 1)
+  | Some n => Ok (suffixed f n, cnt_set c (suffixed f n) (S n))
+  end.
+Definition uniq (pinned_names : bool) (c : counter) (f : field) : outcome (field * counter) :=
+  if pinned_names then uniq_pinned c f else uniq_fuel (S (length c)) c f.
+
+Fixpoint uniq_all (pn : bool) (c : counter) (l : list field) : outcome (list field) :=
+  match l with
+  | [] => Ok []
+  | f :: t => obind (uniq pn c f) (fun fc => obind (uniq_all pn (snd fc) t) (fun r => Ok (fst fc :: r)))
+  end.
+
+(* logical.Map.Typecheck: the candidate name of every expanded select expression — the alias; for an un-aliased
+   variable the (qualified) name of the field it reads; otherwise col_<position>; stars expand in place *)
+Definition col_name (i : nat) : name := [99; 111; 108; 95] ++ dec i.
+Definition star_fields (src : schema) (q : option name) : schema :=
+  match q with
+  | None => src
+  | Some x => filter (fun f => match fst f with Some y => name_eqb x y | None => false end) src
+  end.
+Fixpoint map_candidates (src : schema) (items : list item) (pos : nat) : outcome schema :=
+  match items with
+  | [] => Ok []
+  | i :: rest =>
+      obind (match i with
+             | IExpr _ (Some a) => Ok [(None, a)]
+             | IExpr (ECol q n) None =>
+                 obind (resolve src q n) (fun ix => match nth_error src ix with Some f => Ok [f] | None => Panic p_index end)
+             | IExpr _ None => Ok [(None, col_name pos)]
+             | IAgg _ _ _ _ => Err e_type
+             | IStar => Ok src
+             | IQStar q => Ok (star_fields src (Some q))
+             end) (fun fs =>
+      obind (map_candidates src rest (pos + length fs)) (fun r => Ok (fs ++ r)))
+  end.
+Definition out_schema (pn : bool) (src : schema) (items : list item) : outcome schema :=
+  obind (map_candidates src items 0) (uniq_all pn []).
+
+(* ParseSelect, grouping branch: names of the GroupBy node's fields and of the select columns *)
+Definition agg_name (f : aggfn) (dist : bool) : name :=
+  (match f with
+   | ACount => [99; 111; 117; 110; 116]
+   | ASum => [115; 117; 109]
+   | AAvg => [97; 118; 103]
+   | AMin => [109; 105; 110]
+   | AMax => [109; 97; 120]
+   | AArr => [97; 114; 114; 97; 121; 95; 97; 103; 103]
+   end) ++ (if dist then [95; 100; 105; 115; 116; 105; 110; 99; 116] else []).
+Definition key_name (j : nat) : name := [107; 101; 121; 95] ++ dec j.
+
+Record ginfo := mkginfo { gi_cols : list nat; gi_keynames : list name; gi_aggnames : list name; gi_sel : list name }.
+
+Fixpoint set_nth {A} (l : list A) (j : nat) (x : A) : list A :=
+  match l, j with
+  | [], _ => []
+  | _ :: t, O => x :: t
+  | y :: t, S j' => y :: set_nth t j' x
+  end.
+
+Fixpoint group_names (pn : bool) (items : list item) (keys : list expr) (c : counter)
+         (keynames aggnames sel : list name) : outcome (list name * list name * list name) :=
+  match items with
+  | [] => Ok (keynames, aggnames, sel)
+  | IStar :: _ | IQStar _ :: _ => Err e_star_group
+  | IExpr e alias :: rest =>
+      match find_key e keys 0 with
+      | None => Err e_notkey
+      | Some j =>
+          let base := match alias with
+                      | Some a => a
+                      | None => match nth_error keys j with
+                                | Some (ECol _ n) => n          (* Variable.FieldName: the part after the dot *)
+                                | _ => key_name j
+                                end
+                      end in
+          obind (uniq pn c (None, base)) (fun fc =>
+          group_names pn rest keys (snd fc) (set_nth keynames j (snd (fst fc))) aggnames (sel ++ [snd (fst fc)]))
+      end
+  | IAgg f d arg alias :: rest =>
+      let base := match alias with
+                  | Some a => a
+                  | None => match arg with
+                            | ECol _ n => agg_name f d ++ [95] ++ n
+                            | _ => agg_name f d
+                            end
+                  end in
+      obind (uniq pn c (None, base)) (fun fc =>
+      group_names pn rest keys (snd fc) keynames (aggnames ++ [snd (fst fc)]) (sel ++ [snd (fst fc)]))
+  end.
+
+Definition group_info (pn : bool) (items : list item) (keys : list expr) : outcome ginfo :=
+  obind (group_cols items keys 0) (fun cols =>
+  obind (group_names pn items keys [] (map key_name (seq 0 (length keys))) [] []) (fun r =>
+  let '(kn, an, sel) := r in Ok (mkginfo cols kn an sel))).
+
+Definition unq (names : list name) : schema := map (fun n => (None, n)) names.
+Definition group_schema (gi : ginfo) : schema := unq (gi_keynames gi ++ gi_aggnames gi).
+(* the Map over the GroupBy node: one un-aliased Variable per select column *)
+Definition var_items (gi : ginfo) : list item := map (fun n => IExpr (ECol None n) None) (gi_sel gi).
 
 (* logical.Requalifier: every field gets the subquery's alias as its qualifier *)
 Definition requalify (alias : name) (s : schema) : schema := map (fun f => (Some alias, snd f)) s.
@@ -360,7 +493,8 @@ Definition project (cols : list nat) (r : row) : outcome row :=
 Definition agg_input_ok (f : aggfn) (v : value) : bool :=
   match f with
   | ACount | AArr => true
-  | _ => match v with VNull | VInt _ => true | _ => false end   (* sum/avg/min/max overloads taken: Int *)
+  | AMin | AMax => match v with VNull | VInt _ | VFloat _ => true | _ => false end   (* Int and Float overloads *)
+  | _ => match v with VNull | VInt _ => true | _ => false end   (* sum/avg: the Int overload only *)
   end.
 
 Definition eval_keyed (s : schema) (keys : list expr) (aggs : list aggcall) (r : row) : outcome keyed :=
@@ -374,6 +508,8 @@ Definition eval_item (s : schema) (i : item) (r : row) : outcome (list value) :=
   | IExpr e _ => obind (eval s e r) (fun v => Ok [v])
   | IAgg _ _ _ _ => Err e_type
   | IStar => Ok r
+  | IQStar q => Ok (map snd (filter (fun fv : field * value =>
+                                      match fst (fst fv) with Some y => name_eqb q y | None => false end) (combine s r)))
   end.
 Definition eval_items (s : schema) (items : list item) (r : row) : outcome row :=
   obind (mapM (fun i => eval_item s i r) items) (fun vs => Ok (concat vs)).
@@ -400,6 +536,22 @@ Definition den_limit (lim : option Z) (rows : list row) : outcome (list row) :=
   | Some n => if n <? 0 then Err e_limit else Ok (firstn (Z.to_nat n) rows)
   end.
 
+(* the select list over the (filtered) source rows: Map, or GroupBy + Map *)
+Definition map_sel (pn : bool) (s : schema) (items : list item) (rows : list row) : outcome rel :=
+  obind (out_schema pn s items) (fun outs =>
+  obind (mapM (eval_items s items) rows) (fun rows1 => Ok (mkrel outs rows1))).
+
+Definition group_sel_den (pn : bool) (s : schema) (items : list item) (gb : list expr) (rows : list row) : outcome rel :=
+  obind (group_info pn items gb) (fun gi =>
+  obind (mapM (eval_keyed s gb (aggs_of items)) rows) (fun kl =>
+  obind (mapM (project (gi_cols gi)) (den_group (aggs_of items) kl)) (fun rows1 =>
+  Ok (mkrel (unq (gi_sel gi)) rows1)))).
+
+Definition sel_den (s : schema) (items : list item) (gb : list expr) (rows : list row) : outcome rel :=
+  if grouping false items gb then group_sel_den false s items gb rows
+  else if single_star items then Ok (mkrel s rows)
+  else map_sel false s items rows.
+
 Section Den.
   Variable tables : db.
 
@@ -408,16 +560,11 @@ Section Den.
     | Q dist items from wh gb ob lim =>
       obind (den_src ctes from) (fun src =>
       obind (filter_rows (rsch src) wh (rrows src)) (fun rows =>
-      let outs := out_schema (rsch src) items in
-      obind (if grouping false items gb
-             then obind (group_cols items gb 0) (fun cols =>
-                  obind (mapM (eval_keyed (rsch src) gb (aggs_of items)) rows) (fun kl =>
-                  mapM (project cols) (den_group (aggs_of items) kl)))
-             else mapM (eval_items (rsch src) items) rows) (fun rows1 =>
-      let rows2 := if dist then den_distinct rows1 else rows1 in
-      obind (den_order outs ob rows2) (fun rows3 =>
+      obind (sel_den (rsch src) items gb rows) (fun r1 =>
+      let rows2 := if dist then den_distinct (rrows r1) else rrows r1 in
+      obind (den_order (rsch r1) ob rows2) (fun rows3 =>
       obind (den_limit lim rows3) (fun rows4 =>
-      Ok (mkrel outs rows4))))))
+      Ok (mkrel (rsch r1) rows4))))))
     end
   with den_src (ctes : list (name * rel)) (s : source) {struct s} : outcome rel :=
     match s with
@@ -446,14 +593,15 @@ Inductive plan :=
 | PRequalify (alias : name) (p : plan)
 | PFilter (e : expr) (p : plan)
 | PMap (items : list item) (p : plan)
-| PGroupMap (keys : list expr) (aggs : list aggcall) (cols : outcome (list nat)) (out : schema) (p : plan)
+| PGroupMap (keys : list expr) (aggs : list aggcall) (gi : outcome ginfo) (p : plan)
                                                         (* GroupBy node + the Map of Variables over its output *)
 | PDistinct (p : plan)
 | POrderLimit (ob : list (expr * bool)) (lim : option Z) (p : plan).
                                                         (* OrderSensitiveTransform (logical); root.go's sink wiring *)
 
 Section PlanOf.
-  Variable pinned : bool.
+  Variable pinned : bool.          (* the parser before the GROUP BY fix *)
+  Variable pinned_names : bool.    (* getUniqueName / existingFields before the third-name fixes *)
   (* parser.ParseSelect, ParseNestedNode, ParseAliasedTableExpression.  A select list the parser rejects
      (group_cols fails) is kept in the node as the error, so that it surfaces when the node runs. *)
   Fixpoint plan_of_q (q : query) : plan :=
@@ -462,7 +610,7 @@ Section PlanOf.
       let p0 := plan_of_src from in
       let p1 := match wh with Some e => PFilter e p0 | None => p0 end in
       let p2 := if grouping pinned items gb
-                then PGroupMap gb (aggs_of items) (group_cols items gb 0) (out_schema [] items) p1
+                then PGroupMap gb (aggs_of items) (group_info pinned_names items gb) p1
                 else if single_star items then p1          (* no Map node for SELECT * FROM xyz *)
                 else PMap items p1 in
       let p3 := if dist then PDistinct p2 else p2 in
@@ -593,6 +741,7 @@ Definition limit_node (n : Z) (rows : list row) : list row :=
 
 Section Run.
   Variable tables : db.
+  Variable pinned_names : bool.
   Fixpoint run_plan (ctes : list (name * rel)) (p : plan) : outcome rel :=
     match p with
     | PScan t alias => match lookup t tables with
@@ -603,16 +752,15 @@ Section Run.
     | PRequalify alias p => obind (run_plan ctes p) (fun r => Ok (mkrel (requalify alias (rsch r)) (rrows r)))
     | PFilter e p => obind (run_plan ctes p) (fun r =>
                      obind (filter_node (rsch r) e (rrows r)) (fun rows => Ok (mkrel (rsch r) rows)))
-    | PMap items p => obind (run_plan ctes p) (fun r =>
-                      obind (mapM (eval_items (rsch r) items) (rrows r)) (fun rows =>
-                      Ok (mkrel (out_schema (rsch r) items) rows)))
-    | PGroupMap keys aggs cols out p =>
+    | PMap items p => obind (run_plan ctes p) (fun r => map_sel pinned_names (rsch r) items (rrows r))
+    | PGroupMap keys aggs gi p =>
+        (* GroupBy: fields named gi_keynames ++ gi_aggnames; then the Map of un-aliased Variables, which finds
+           its columns and their names by name *)
         obind (run_plan ctes p) (fun r =>
-        obind cols (fun cols =>
+        obind gi (fun gi =>
         obind (mapM (eval_keyed (rsch r) keys aggs) (rrows r)) (fun kl =>
         obind (group_node aggs kl) (fun grows =>
-        obind (mapM (project cols) grows) (fun rows =>
-        Ok (mkrel out rows))))))
+        map_sel pinned_names (group_schema gi) (var_items gi) grows))))
     | PDistinct p => obind (run_plan ctes p) (fun r => Ok (mkrel (rsch r) (distinct_node (rrows r))))
     | POrderLimit ob lim p =>
         obind (run_plan ctes p) (fun r =>
@@ -631,23 +779,26 @@ End Run.
    OrderSensitiveTransform / Limit over the plan — the same wiring ParseNestedNode gives a nested select *)
 Section ExecTop.
   Variable pinned : bool.
+  Variable pinned_names : bool.
   Variable tables : db.
   Fixpoint exec_ctes (ctes : list (name * rel)) (defs : list (name * query)) : outcome (list (name * rel)) :=
     match defs with
     | [] => Ok ctes
-    | (n, q) :: rest => obind (run_plan tables ctes (plan_of_q pinned q)) (fun r => exec_ctes ((n, r) :: ctes) rest)
+    | (n, q) :: rest => obind (run_plan tables pinned_names ctes (plan_of_q pinned pinned_names q)) (fun r => exec_ctes ((n, r) :: ctes) rest)
     end.
   Definition exec_top_gen (t : top) : outcome rel :=
-    obind (exec_ctes [] (fst t)) (fun ctes => run_plan tables ctes (plan_of_q pinned (snd t))).
+    obind (exec_ctes [] (fst t)) (fun ctes => run_plan tables pinned_names ctes (plan_of_q pinned pinned_names (snd t))).
 End ExecTop.
-Definition exec_top : db -> top -> outcome rel := exec_top_gen false.
-Definition exec_top_pinned : db -> top -> outcome rel := exec_top_gen true.
+Definition exec_top : db -> top -> outcome rel := exec_top_gen false false.
+Definition exec_top_pinned : db -> top -> outcome rel := exec_top_gen true false.         (* GROUP BY ignored *)
+Definition exec_top_pinned_names : db -> top -> outcome rel := exec_top_gen false true.  (* third name repeated *)
 
 (* ------------------------------------------------------------------ fragment *)
 (* plain values: the value fragment of C01/C03 *)
 Fixpoint plainb (v : value) : bool :=
   match v with
   | VNull | VInt _ | VBool _ | VStr _ => true
+  | VFloat b => (0 <=? b) && (b <? two64) && negb (f_is_nan b) && negb (b =? two63)   (* no NaN, no -0 *)
   | VList l => forallb plainb l
   | _ => false
   end.
@@ -663,7 +814,7 @@ Fixpoint plain_expr (e : expr) : bool :=
   | EUn _ a => plain_expr a
   end.
 Definition plain_item (i : item) : bool :=
-  match i with IExpr e _ => plain_expr e | IAgg _ _ a _ => plain_expr a | IStar => true end.
+  match i with IExpr e _ => plain_expr e | IAgg _ _ a _ => plain_expr a | IStar | IQStar _ => true end.
 
 Definition opt_all {A} (f : A -> bool) (o : option A) : bool := match o with Some x => f x | None => true end.
 
@@ -676,9 +827,30 @@ Fixpoint ordered_src (s : source) : bool :=
       match ob with [] => negb (grouping false items gb) && ordered_src from | _ => true end
   | SCte _ => false
   end.
+(* the Map over the GroupBy node reads, by name, the column the select item means and gives it the item's name:
+   false only when two GroupBy fields share a name (an alias equal to an unselected key's key_i, a key selected
+   twice) *)
+Definition schema_eqb (a b : schema) : bool := list_eqb field_eqb a b.
+Fixpoint resolves_to (s : schema) (names : list name) (cols : list nat) : bool :=
+  match names, cols with
+  | [], [] => true
+  | n :: ns, c :: cs => (match resolve s None n with Ok i => Nat.eqb i c | _ => false end) && resolves_to s ns cs
+  | _, _ => false
+  end.
+Definition group_names_ok (items : list item) (gb : list expr) : bool :=
+  match group_info false items gb with
+  | Ok gi => resolves_to (group_schema gi) (gi_sel gi) (gi_cols gi) &&
+             match out_schema false (group_schema gi) (var_items gi) with
+             | Ok outs => schema_eqb outs (unq (gi_sel gi))
+             | _ => false
+             end
+  | _ => true
+  end.
+
 Fixpoint frag_q (q : query) : bool :=
   match q with
   | Q dist items from wh gb ob lim =>
+      (if grouping false items gb then group_names_ok items gb else true) &&
       forallb plain_item items && frag_src from && opt_all plain_expr wh && forallb plain_expr gb &&
       forallb (fun kd : expr * bool => plain_expr (fst kd)) ob && opt_all (fun n => 0 <=? n) lim &&
       (match ob, lim with [], Some _ => negb (grouping false items gb) && ordered_src from | _, _ => true end)
@@ -711,12 +883,19 @@ Definition result_equivb (ordered : bool) (a b : outcome rel) : bool :=
 Definition result_equiv (ordered : bool) (a b : outcome rel) : Prop := result_equivb ordered a b = true.
 
 (* ------------------------------------------------------------------ cases of the differential run *)
-Inductive observed := ObsRows (rows : list row) | ObsErr.
+Inductive observed := ObsRows (names : list name) (rows : list row) | ObsErr.   (* names = [] when nothing was printed *)
+
+(* formats.WithoutQualifiers: the short name when it is unique among the short names, else qualifier.name *)
+Definition printed_names (s : schema) : list name :=
+  map (fun f => if (length (filter (fun g : field => name_eqb (snd g) (snd f)) s) =? 1)%nat then snd f
+                else match fst f with Some q => q ++ [46] ++ snd f | None => snd f end) s.
 Definition rel_case := (top * db * observed)%type.
 
 Definition obs_matches (ordered : bool) (model : outcome rel) (o : observed) : bool :=
   match model, o with
-  | Ok x, ObsRows rows => if ordered then rows_eqb (rrows x) rows else bag_rows_eqb (rrows x) rows
+  | Ok x, ObsRows names rows =>
+      (if ordered then rows_eqb (rrows x) rows else bag_rows_eqb (rrows x) rows) &&
+      match rows with [] => true | _ => list_eqb name_eqb (printed_names (rsch x)) names end
   | Err _, ObsErr => true
   | _, _ => false
   end.
